@@ -94,6 +94,10 @@ def find_depending_unit(res):
     DONE = z3.Function("rc_done", I, RC)
     rc_init = upd(upd(rc_empty, INS, z3.BoolVal(False)), INS, z3.BoolVal(True))
     PRE = lambda k: upd(DONE(k), later[k], z3.BoolVal(False))
+    # an access forms its address from the register values before the instruction's own register writes (table DONE(k));
+    # an instruction with a pre-indexed access after its own base update (table PRE(k))
+    hp = z3.Function("has_pre_indexed_access", I, B)  # contract of _has_pre_indexed_access (own unit)
+    AT = lambda k: z3.If(hp(later[k]), PRE(k), DONE(k))
     ml = z3.Function("ml", I, I, RC, B)  # is_memload(d, instr, changes at that point)   (C06)
     ms = z3.Function("ms", I, I, RC, B)  # is_memstore(d, instr, ...)                    (C06)
 
@@ -106,6 +110,9 @@ def find_depending_unit(res):
         def sym_havoc(self, ex_, tag):
             self.term = z3.FreshConst(RC, tag)
             return self
+
+        def sym_deepcopy(self, ex_):
+            return RCObj(self.term)
 
     def update_changes(ex_, so, a, kw):
         iform = a[0]
@@ -133,6 +140,7 @@ def find_depending_unit(res):
 
     ex.abstract["is_read"] = rel(rd)
     ex.abstract["is_written"] = rel(wr)
+    ex.abstract["_has_pre_indexed_access"] = lambda ex_, so, a, kw: SBool(hp(a[0].t))
     ex.abstract["is_memload"] = lambda ex_, so, a, kw: SBool(ml(a[0].t, a[1].t, rc_of(a, kw)))
     ex.abstract["is_memstore"] = lambda ex_, so, a, kw: SBool(ms(a[0].t, a[1].t, rc_of(a, kw)))
     indexed = lambda d: z3.Or(o.pre(d), o.post_t(d))
@@ -140,14 +148,12 @@ def find_depending_unit(res):
 
     # reference (statement): consumer j depends on destination d iff it reads d (register; flag only when flag
     # dependencies are requested; memory: a load of the location).  The scan ends at the first instruction that
-    # overwrites d (register/flag), resp. the write-back base or the same location (memory).
+    # overwrites d (register/flag), resp. stores to the same operand (memory).
     def readcond(d, jx, k):
-        return z3.Or(z3.And(H.isreg(d), rd(d, jx)), z3.And(H.isflag(d), FD, rd(d, jx)),
-                     z3.And(H.ismem(d), z3.Not(z3.And(indexed(d), wr(base(d), jx))), ml(d, jx, PRE(k))))
+        return z3.Or(z3.And(H.isreg(d), rd(d, jx)), z3.And(H.isflag(d), FD, rd(d, jx)), z3.And(H.ismem(d), ml(d, jx, AT(k))))
 
     def killcond(d, jx, k):
-        return z3.Or(z3.And(H.isreg(d), wr(d, jx)), z3.And(H.isflag(d), FD, wr(d, jx)),
-                     z3.And(H.ismem(d), z3.Or(z3.And(indexed(d), wr(base(d), jx)), ms(d, jx, PRE(k)))))
+        return z3.Or(z3.And(H.isreg(d), wr(d, jx)), z3.And(H.isflag(d), FD, wr(d, jx)), z3.And(H.ismem(d), ms(d, jx, AT(k))))
 
     def tagspec(d):
         return z3.And(H.isreg(d), indexed(d))
@@ -222,6 +228,32 @@ def find_depending_unit(res):
     nokill = lambda n_: z3.ForAll([q], z3.Implies(z3.And(0 <= q, q < n_), z3.Not(kill(q))))
     res.add("lemma/reach-base", ax, reach(0) == nokill(0), label="L")
     res.add("lemma/reach-step", ax + [k0 >= 0, reach(k0) == nokill(k0)], reach(k0 + 1) == nokill(k0 + 1), label="L")
+    return res
+
+
+def has_pre_indexed_unit(res):
+    """P: KernelDG._has_pre_indexed_access (operand sequences of any length): True iff the instruction has semantic operands
+    and one of them - in any role - is a pre-indexed memory operand."""
+    H = Heap()
+    ex = kdg_engine(H)
+    INS = z3.Int("INS")
+    o = H.ops
+    paths = ex.explore(lambda: ex.call_method("KernelDG", "_has_pre_indexed_access", SObj("KernelDG"), [SRef(INS, H.ins)]), H.wf())
+    pred = lambda x: z3.And(H.ismem(x), o.pre(x))
+    j = z3.Int("j")
+    n1, n2, n3 = H.length(INS, "source"), H.length(INS, "destination"), H.length(INS, "src_dst")
+    # the j-th operand of source ++ destination ++ src_dst
+    elem3 = lambda t: z3.If(t < n1, H.elem(INS, "source", t), z3.If(t < n1 + n2, H.elem(INS, "destination", t - n1), H.elem(INS, "src_dst", t - n1 - n2)))
+    want = z3.And(H.has_sem(INS), z3.Exists([j], z3.And(0 <= j, j < n1 + n2 + n3, pred(elem3(j)))))
+    for p in paths:
+        if p.outcome[0] != "ret":
+            res.add("exception-freedom", p.pc, False)
+            continue
+        v = p.outcome[1]
+        got = v.t if isinstance(v, SBool) else z3.BoolVal(bool(v))
+        # two implications with the witness handed over (z3 does not find the index shift of the concatenation by itself)
+        res.add("post/code-true-implies-spec", list(p.pc) + [got], want)
+        res.add("post/spec-implies-code-true", list(p.pc) + [want], got)
     return res
 
 
@@ -394,7 +426,7 @@ ROLE_FILES = ["osaca/parser/operand.py", "osaca/parser/register.py", "osaca/pars
 
 def roles_unit(isa):
     """Pb: ISASemantics.assign_src_dst (with _apply_found_ISA_data, default roles, suffix fall-backs, register form of a memory
-    instruction, AArch64 write-back post-processing, load/store flags) for 1-3 operands, symbolic per-operand roles of the ISA
+    instruction, AArch64 write-back post-processing, load/store flags) for 0-3 operands, symbolic per-operand roles of the ISA
     entry and of two hidden operands.  Spec from the statement: read-modify-write operands go to src_dst, hidden (flag) operands
     follow their roles, a dependency-breaking idiom with equal operands writes without reading, forms without ISA entry get
     'last (x86) / first (AArch64) operand is the destination', a single operand is a source."""
@@ -402,7 +434,9 @@ def roles_unit(isa):
         ex = Engine([REPO + "/" + f for f in ROLE_FILES])
         ex.no_init |= {"MachineModel", "ParserX86ATT", "ParserAArch64"}
         import itertools
-        for nops, found, mempos, equal, idiom in itertools.product((1, 2, 3), ("full", "suffix", "regform", "regform-suffix", "none"), (None, "last", "first"), (False, True), (False, True)):
+        for nops, found, mempos, equal, idiom in itertools.product((0, 1, 2, 3), ("full", "suffix", "regform", "regform-suffix", "none"), (None, "last", "first"), (False, True), (False, True)):
+            if nops == 0 and (mempos is not None or equal or idiom or found.startswith("regform")):
+                continue  # operand-less instruction (cltq, vzeroupper, pushfq ...): only its hidden operands have roles
             if found.startswith("regform") and mempos is None:
                 continue
             if equal and (mempos is not None or nops == 1):
@@ -484,7 +518,7 @@ def roles_unit(isa):
                             g.append(z3.BoolVal(in_s) == z3.And(sb, z3.Not(db)))
                             g.append(z3.BoolVal(in_d) == z3.And(z3.Not(sb), db))
                 else:
-                    dest = [] if nops == 1 else ([ops[-1]] if isa == "x86" else [ops[0]])
+                    dest = [] if nops <= 1 else ([ops[-1]] if isa == "x86" else [ops[0]])
                     for o in ops:
                         g.append(z3.BoolVal(inl(so["destination"], o) == any(o is d for d in dest)))
                         g.append(z3.BoolVal(inl(so["source"], o) == (not any(o is d for d in dest))))
